@@ -2,6 +2,7 @@
 
 use crate::engine::Ctx;
 
+pub mod c01;
 pub mod c02;
 pub mod c03;
 pub mod c04;
@@ -23,7 +24,7 @@ pub mod c19;
 pub mod c20;
 pub mod fmt;
 
-pub const ALL: &[&str] = &["C02", "C03", "C04", "C05", "C06", "C07", "C08", "C09", "C10", "C11", "C12", "C13", "C14", "C15", "C16", "C17", "C18", "C19", "C20"];
+pub const ALL: &[&str] = &["C01", "C02", "C03", "C04", "C05", "C06", "C07", "C08", "C09", "C10", "C11", "C12", "C13", "C14", "C15", "C16", "C17", "C18", "C19", "C20"];
 
 pub fn exists(p: &str) -> bool {
     ALL.contains(&p)
@@ -31,6 +32,7 @@ pub fn exists(p: &str) -> bool {
 
 pub fn run(p: &str, ctx: &mut Ctx) {
     match p {
+        "C01" => c01::run(ctx),
         "C02" => c02::run(ctx),
         "C03" => c03::run(ctx),
         "C04" => c04::run(ctx),
@@ -57,6 +59,7 @@ pub fn run(p: &str, ctx: &mut Ctx) {
 /// (non-triviality rule, assumptions)
 pub fn meta(p: &str) -> (String, Vec<String>) {
     let (r, a): (&str, &[&str]) = match p {
+        "C01" => (c01::RULE, c01::ASSUMPTIONS),
         "C02" => (c02::RULE, c02::ASSUMPTIONS),
         "C03" => (c03::RULE, c03::ASSUMPTIONS),
         "C04" => (c04::RULE, c04::ASSUMPTIONS),
